@@ -81,10 +81,16 @@ func Mutations(s *spec.Spec) []*Mutation {
 		out = append(out, &Mutation{Class: class, Name: name, Site: site, Apply: f})
 	}
 	// ---- user types: required attributes, views
+	reach := ReachableTypes(s)
 	for _, ut := range s.Types {
 		ut := ut
 		if ut.Def != nil && ut.Def.Kind == spec.Object && ut.Kind != "alias" {
-			add("required-attr@type", NoAttr, "type "+ut.Name, func() { ut.Def.Required = append(ut.Def.Required, NoAttr) })
+			class := "required-attr@type"
+			if !reach[ut.Name] {
+				// a type no method uses: goa generates no code for it
+				class = "required-attr@unused-type"
+			}
+			add(class, NoAttr, "type "+ut.Name, func() { ut.Def.Required = append(ut.Def.Required, NoAttr) })
 		}
 		if ut.Kind == "result" {
 			for _, v := range ut.Views {
@@ -282,3 +288,104 @@ func PickMutation(r *vc.Rand, ms []*Mutation) *Mutation {
 
 // MentionsName reports whether goa's error text names the dangling name.
 func MentionsName(errs, name string) bool { return strings.Contains(errs, name) }
+
+var grpcPrims = []string{spec.Boolean, spec.Int32, spec.Int64, spec.UInt32, spec.UInt64, spec.Float32, spec.Float64, spec.String, spec.Bytes}
+
+// GRPCSpec draws a small valid gRPC-only design (object payload/result with
+// explicit field tags, optional errors): the base for the gRPC dangling classes.
+func GRPCSpec(r *vc.Rand, id string) *spec.Spec {
+	s := &spec.Spec{ID: id}
+	s.API.Name = "api" + strings.ToLower(id)
+	s.API.Title = "lab " + id
+	s.API.Version = "1.0"
+	names := []string{"alpha", "bravo", "charlie", "delta", "echo", "foxtrot", "golf", "hotel"}
+	obj := func() *spec.Type {
+		t := &spec.Type{Kind: spec.Object}
+		perm := r.Perm(len(names))
+		n := r.Range(1, 4)
+		for i := 0; i < n; i++ {
+			a := &spec.Attr{Name: names[perm[i]], Type: &spec.Type{Kind: grpcPrims[r.Intn(len(grpcPrims))]}, Tag: i + 1}
+			if r.Chance(1, 4) {
+				a.Type = &spec.Type{Kind: spec.Array, Elem: &spec.Attr{Type: &spec.Type{Kind: grpcPrims[r.Intn(len(grpcPrims))]}}}
+			}
+			t.Attrs = append(t.Attrs, a)
+			if r.Chance(1, 3) {
+				t.Required = append(t.Required, a.Name)
+			}
+		}
+		return t
+	}
+	sv := &spec.Service{Name: r.Pick("calc", "storage", "tracker"), GRPC: true, NoHTTP: true}
+	nm := r.Range(1, 3)
+	for j := 0; j < nm; j++ {
+		m := &spec.Method{Name: []string{"add", "list", "show"}[j], GRPC: &spec.GRPC{}}
+		m.Payload = &spec.Attr{Type: obj()}
+		m.Result = &spec.Attr{Type: obj()}
+		if r.Chance(1, 2) {
+			e := &spec.ErrorDecl{Name: r.Pick("not_found", "bad_thing")}
+			m.Errors = append(m.Errors, e)
+			m.GRPC.ErrCodes = append(m.GRPC.ErrCodes, struct {
+				Name string `json:"name"`
+				Code string `json:"code"`
+			}{e.Name, r.Pick("CodeNotFound", "CodeInvalidArgument")})
+		}
+		sv.Methods = append(sv.Methods, m)
+	}
+	s.Services = append(s.Services, sv)
+	s.AddFeature("grpc")
+	return s
+}
+
+// ReachableTypes returns the user types some method payload, result or error
+// refers to, directly or through other types.
+func ReachableTypes(s *spec.Spec) map[string]bool {
+	seen := map[string]bool{}
+	var wt func(t *spec.Type)
+	wt = func(t *spec.Type) {
+		if t == nil {
+			return
+		}
+		if t.Kind == spec.Ref {
+			if seen[t.Ref] {
+				return
+			}
+			seen[t.Ref] = true
+			if ut := s.Type(t.Ref); ut != nil {
+				wt(ut.Def)
+				if ut.Extend != "" {
+					wt(&spec.Type{Kind: spec.Ref, Ref: ut.Extend})
+				}
+				if ut.Reference != "" {
+					wt(&spec.Type{Kind: spec.Ref, Ref: ut.Reference})
+				}
+			}
+			return
+		}
+		for _, a := range []*spec.Attr{t.Elem, t.Key} {
+			if a != nil {
+				wt(a.Type)
+			}
+		}
+		for _, a := range t.Attrs {
+			wt(a.Type)
+		}
+	}
+	we := func(es []*spec.ErrorDecl) {
+		for _, e := range es {
+			wt(e.Type)
+		}
+	}
+	we(s.API.Errors)
+	for _, sv := range s.Services {
+		we(sv.Errors)
+		for _, m := range sv.Methods {
+			for _, a := range []*spec.Attr{m.Payload, m.Result, m.StreamP} {
+				if a != nil {
+					wt(a.Type)
+				}
+			}
+			we(m.Errors)
+		}
+	}
+	return seen
+}
